@@ -301,6 +301,35 @@ func FamilyFloatSets(thorough bool) []Program {
 	return out
 }
 
+// FamilySpecialValues: set constraints whose values need escaping in the generated code (double
+// quote, backslash), alone, negated, and as the condition of an if-then-else - the one place where
+// one and the same parsed constraint is translated twice.
+func FamilySpecialValues(thorough bool) []Program {
+	q, b := str(`say "hi"`), str(`C:\temp`)
+	atoms := []Atom{
+		{Path: P(0), Kind: "in", Values: []ast.Value{q, b}},
+		{Path: P(0), Kind: "containsSome", Values: []ast.Value{b, q}},
+	}
+	if thorough {
+		atoms = append(atoms, Atom{Path: P(0), Kind: "containsAll", Values: []ast.Value{q}}, Atom{Path: P(0), Kind: "in", Values: []ast.Value{b}})
+	}
+	var out []Program
+	for _, a := range atoms {
+		out = append(out,
+			one("v", And{[]Formula{a}}),
+			one("v", If{C: And{[]Formula{a}}, T: mc(1), E: mc(2)}),
+		)
+		if thorough {
+			out = append(out,
+				one("v", Not{And{[]Formula{a}}}),
+				one("v", If{C: mc(1), T: And{[]Formula{a}}, E: Not{And{[]Formula{a}}}}),
+				one("v", And{[]Formula{a, Or{[]Formula{And{[]Formula{a}}, mc(1)}}}}),
+			)
+		}
+	}
+	return out
+}
+
 // FamilyAtoms: every documented atom alone, under not, as operand of or and as the
 // condition / consequence of if-then.
 func FamilyAtoms(thorough bool) []Program {
